@@ -10,6 +10,7 @@ package c09
 import (
 	"context"
 	"fmt"
+	"reflect"
 	"sort"
 	"strings"
 	"sync"
@@ -417,20 +418,39 @@ func (w *World) Query(k Kons, s search.SortType, limit int, cont string, around 
 		}
 	}()
 	q := &search.SearchQuery{Constraint: k.Make(), Sort: s, Limit: limit, Continue: cont, Around: around}
-	before := dumpQuery(q)
+	// Query must leave the caller's object alone (also when it panics): the
+	// top-level struct is compared by value, the constraint tree by a deep dump
+	// of its exported state. For a freshly made constraint the "before" dump is
+	// a never-used constraint of the same kind (compared without allocations,
+	// dumps only made on a difference). A constraint object shared between
+	// calls has its own never-used twin (see reuse.go).
+	qBefore := *q
+	want, isShared := sharedObjs[q.Constraint]
+	if !isShared {
+		want = pristineOf(k)
+	}
 	defer func() {
-		// Query must leave the caller's object alone (also when it panics)
-		if w.mut != nil {
+		if w.mut != nil || want == nil {
 			return
 		}
-		if path, b, a, differ := diffDumps(before, dumpQuery(q)); differ {
-			kind := "plain"
-			if cont != "" {
-				kind = "continue"
-			} else if around.Valid() {
-				kind = "around"
-			}
+		kind := "plain"
+		if cont != "" {
+			kind = "continue"
+		} else if around.Valid() {
+			kind = "around"
+		}
+		if top := diffTop(&qBefore, q); top != "" {
+			w.mut = &Mutation{Kind: kind, Path: "q." + top, Before: "<value before the call>", After: "<changed>"}
+			return
+		}
+		if eqExported(reflect.ValueOf(want), reflect.ValueOf(q.Constraint), 0) {
+			return
+		}
+		if path, b, a, differ := diffDumps(dumpConstraint(want), dumpConstraint(q.Constraint)); differ {
 			w.mut = &Mutation{Kind: kind, Path: path, Before: b, After: a}
+			if isShared {
+				sharedObjs[q.Constraint] = nil
+			}
 		}
 	}()
 	res, err := w.Handler.Query(context.Background(), q)
